@@ -11,3 +11,11 @@ LEVEL_TEXT = EXPLANATION
 TIMEOUT_MS = {'quick': 20000, 'thorough': 120000}
 MUSTFAIL_PER_FN = {'quick': 1, 'thorough': 6}
 BOUNDED = [hub_bounded('C04-history-and-tree', ['basic', 'forms', 'lang', 'iframe', 'attrs', 'identical', 'plain', 'ns', 'api'], ['core', 'html', 'lang'])]
+
+
+def _f2(ctx):
+    from pyvc import frames
+    return frames.F2_no_tree_writes(ctx)
+
+
+STRUCTURAL = [_f2]
